@@ -11,7 +11,7 @@ use crate::geom::{self, Family, P};
 use crate::statejson::{self, Params, ShapeSpec};
 
 pub const TITLE: &str = "The CLI writes the best replica, labelled with what was asked for";
-pub const RULE: &str = "part cli: (group, shape subcommand with options, potential, step settings) run with replications k = 1..kmax (kmax 2..4). Oracle per run: the score of the written structure (re-read from the .json) equals the maximum of the replica scores reported by the verif-hooks line of each replica and equals the logged 'Final score' (rel 1e-12); across k the written score never decreases (replicas are seeds 0..k-1, so k+1 replicas contain the first k); the JSON records the requested group name, the ITA crystal family of that group for wallpaper and cell, the requested shape (polygon: the documented vertices; circle/trimer: the documented discs or LJ particles with sigma = 2 r), the group's number of operations, and re-reading it yields that many placements. part ladder: one argument set run with 1, 2, 3, 5, 8, ... replications (Fibonacci numbers up to 144; up to 6765 in the thorough tier, beyond the CLI default of 100): the logged score never decreases along the ladder; part ladder-deep: one such ladder up to 6765 replications in every tier. part ordering: vectors of 2..6 generated valid states of one shape; max() and cmp() must agree with the comparison of score(). Non-trivial = a run with k >= 2 and >= 2 distinct replica scores, or an ordering vector with >= 2 distinct scores; distinct by hash of the case.";
+pub const RULE: &str = "part cli: (group, shape subcommand with options, potential, step settings) run with replications k = 1..kmax (kmax 2..4). About half of the invocations (a pure function of arguments and thread count) find both output files already present, holding 64 KiB left by an earlier run with the same --outfile. Oracle per run: the score of the written structure (re-read from the .json) equals the maximum of the replica scores reported by the verif-hooks line of each replica and equals the logged 'Final score' (rel 1e-12); across k the written score never decreases (replicas are seeds 0..k-1, so k+1 replicas contain the first k); the JSON records the requested group name, the ITA crystal family of that group for wallpaper and cell, the requested shape (polygon: the documented vertices; circle/trimer: the documented discs or LJ particles with sigma = 2 r), the group's number of operations, and re-reading it yields that many placements. part ladder: one argument set run with 1, 2, 3, 5, 8, ... replications (Fibonacci numbers up to 144; up to 6765 in the thorough tier, beyond the CLI default of 100): the logged score never decreases along the ladder; part ladder-deep: one such ladder up to 6765 replications in every tier. part ordering: vectors of 2..6 generated valid states of one shape; max() and cmp() must agree with the comparison of score(). Non-trivial = a run with k >= 2 and >= 2 distinct replica scores, or an ordering vector with >= 2 distinct scores; distinct by hash of the case.";
 
 pub fn assumptions() -> Vec<&'static str> {
     vec!["clause 'highest-scoring among its replicas' is decided exactly through the guarded hook (one line per replica); prefix monotonicity does not depend on the hook", "runs that exit non-zero are C20's subject and are skipped here"]
